@@ -65,6 +65,8 @@ def run(ck):
     literal_path(ck)
     stateless_tokens(ck)
     placeholder_text_intact(ck)
+    ck.rule("C12-O9", "a pattern that expands to nothing yields the empty text: the result of format() is non-null on every path (a null result counts as 'unformatted' and the sinks print the raw message)")
+    result_never_null(ck)
     ck.rule("C12-O7", "message text is inserted verbatim: LogMessage keeps the text it is given")
     from rules.oth import message_text_intact
     message_text_intact(ck, ck.facts, "C12-O7", "%{message} prints another text than the one that was logged")
@@ -877,3 +879,35 @@ def placeholder_text_intact(ck):
                   "parsePattern() modifies the placeholder text (%s) in a way this rule cannot classify" % describe(n)[:50], key="parsePattern|placeholder-intact")
     if not bad:
         ck.ob("C12-O6", sitestr(fn), True, "the placeholder text is modified only by dropping a trailing ':spec' (%d write site%s)" % (len(writes), "" if len(writes) == 1 else "s"), key="parsePattern|placeholder-intact")
+
+
+def result_never_null(ck):
+    """C12-O9: a pattern that expands to nothing for a message (only %{if-...} blocks of other types, only absent optional attributes) prescribes the
+    EMPTY text. LogMessage::isFormatted() is !isNull(), so a formatter that returns a null QString is taken for "nothing formatted" and the sinks
+    write the raw message instead. The result buffer of format() must therefore be made non-null on every path (reserve() does that), not only by
+    the token appends, which may all append nothing."""
+    F = ck.facts
+    fm = F.fn("PatternFormatterPrivate::format")
+    ck.touch(fm)
+    g = Graph(fm)
+    rets = [r for r in returns(fm) if isinstance(r.get("e"), dict)]
+    locs = {}
+    for r in rets:
+        e = skip_copies(r["e"])
+        if e.get("k") == "ref" and e.get("dk") == "local":
+            _, var = local_var(fm, e["decl"])
+            if var is not None and "QString" in (var.get("type") or ""):
+                locs.setdefault(e["decl"], []).append(r)
+    if not locs:
+        ck.ob("C12-O9", sitestr(fm), None, "format() does not return a local QString buffer; the null / empty distinction of its result is not decided", key="format|null-result")
+        return
+    for d, rs in locs.items():
+        _, var = local_var(fm, d)
+        init = skip_copies(var.get("init")) if isinstance(var.get("init"), dict) else None
+        born_nonnull = init is not None and (const_str(init) is not None and not (init.get("k") == "construct" and not [a for a in init.get("args", []) if a.get("k") != "defaultarg"]))
+        makers = [c for c in fm.calls() if c.get("ck") == "member" and is_ref_to(skip_copies(c.get("obj") or {}), d) and name_is(c.get("callee"), ("reserve", "resize", "fill", "detach"))]
+        makers += [n for n in fm.all_nodes() if n.get("k") == "call" and n.get("ck") == "operator" and n.get("op") == "=" and n.get("args") and is_ref_to(skip_copies(n["args"][0]), d) and const_str(n["args"][1]) is not None]
+        ok = born_nonnull or (bool(makers) and all(g.must_pass(set(g.sites_of_nodes(makers)), to=g.site_of(r)) if g.site_of(r) is not None else False for r in rs))
+        ck.ob("C12-O9", sitestr(fm, rs[0]), ok, "the result buffer is made non-null on every path before it is returned (reserve): a pattern that expands to nothing yields the empty text, not 'unformatted'" if ok else
+              "format() can return a null QString: when no token appends anything (a pattern of %{if-...} blocks that do not apply, absent optional attributes) the buffer was never touched, "
+              "isFormatted() is false and every sink writes the raw message instead of the prescribed empty text", key="format|null-result")
